@@ -622,7 +622,7 @@ Fixpoint l_all (l : layer) : list N :=
   | Identity => []
   end.
 
-(** [Registry::enabled] is [FilterMap::any_enabled], true whenever fewer than 64 filters exist ([Built]) *)
+(** [Registry::enabled] is [FilterMap::any_enabled], which is [true] (since d650aab also with a full bitmap) *)
 Fixpoint c_en (c : coll) (m : meta) (cx : ctx) : bool :=
   match c with Registry => true | With l c' => l_en l m cx && c_en c' m cx end.
 Fixpoint c_recv (c : coll) (m : meta) (cx : ctx) : list N :=
